@@ -4,7 +4,6 @@
   implies.  Property theorems (Props/C15) are proved from these, never by unfolding `step`.
 -/
 import MxModel.Core.DualYield
-import Mathlib.Tactic.Linarith
 
 namespace Mx.DualYield
 
